@@ -183,6 +183,41 @@ def search_sector_mapping(chk, r):
                 chk.search_case("sector_mapping_dglap", ok, what=f"nf={nf}: the {d['term']} term of sector {d['sector']} uses {d['got']} instead of {lab}", data=d, sample=d if key == (2, 1, 0) and nf == 4 and lab == "P_nsm_1" else None)
 
 
+def search_polarised_kernels(chk):
+    """the ln(muF) terms are the DGLAP kernels *of the observable's own evolution* acting on the central
+    coefficients: for a polarised structure function the polarised kernels.  Normalisation-free test on a
+    real run: at a grid node x the gluon row of the key (1,0,0,1) of a light observable is
+    w x (P_qg (x) p_j)(x), so it must be proportional (over j) to the convolution of the basis with
+    2x-1 (polarised) resp. x^2+(1-x)^2 (unpolarised)"""
+    import yadism
+    from yadism.coefficient_functions.partonic_channel import RSL
+
+    from .c01 import indep_convolution
+
+    grid = cards.default_grid(8, 0.01)
+    x = float(grid[3])
+    shapes = dict(unpolarised=RSL(reg=lambda z, a: z * z + (1 - z) * (1 - z)), polarised=RSL(reg=lambda z, a: 2 * z - 1))
+    for name, process, want in (("F2_light", "EM", "unpolarised"), ("g1_light", "EM", "polarised"), ("g1_light", "NC", "polarised")):
+        d = dict(obs=name, process=process, x=x, Q2=20.0, expected_kernel=want)
+        try:
+            runner = yadism.Runner(cards.theory(PTO=1), cards.obs({name: [dict(x=x, Q2=20.0)]}, prDIS=process, interpolation_xgrid=grid))
+            out = runner.get_result()
+            row = np.asarray(out[name][0].orders[(1, 0, 0, 1)][0])[list(out["pids"]).index(21)]
+            interp = runner.configs.interpolator
+            res = {}
+            for tag, rsl in shapes.items():
+                a = indep_convolution(rsl, x, interp, grid)
+                kappa = float(row @ a) / float(a @ a)
+                res[tag] = float(np.abs(row - kappa * a).max() / max(np.abs(row).max(), 1e-300))
+        except Exception as e:  # noqa
+            chk.search_case("fact_log_uses_the_kernels_of_the_observable", False, what=f"{name} {process}: {type(e).__name__}: {e}"[:200], data=d)
+            continue
+        d.update(residual=res)
+        other = "polarised" if want == "unpolarised" else "unpolarised"
+        ok = res[want] <= 1e-5
+        chk.search_case("fact_log_uses_the_kernels_of_the_observable", ok, what=f"{name} {process} PTO=1 x={x:.4g}: the gluon row of the ln(muF) term (1,0,0,1) is not proportional to the {want} P_qg (x) basis (residual {res[want]:.2e}) but to the {other} one (residual {res[other]:.2e}): {'polarised observable with unpolarised splitting functions' if want == 'polarised' else 'wrong kernel'}", data=d, sample=d if name.startswith("g1") and process == "EM" else None)
+
+
 def run(tier):
     chk = common.Check("C05", tier)
     thorough = tier == "thorough"
@@ -201,6 +236,7 @@ def run(tier):
     search_products(chk, r)
     search_sector_mapping(chk, r)
     search_raw_operators(chk, r, thorough)
+    search_polarised_kernels(chk)
     search_multi_nf(chk, r, 12 if thorough else 2)
     search_switch_off(chk, r, 40 if thorough else 5, 3 if thorough else 2)
     if not thorough:
@@ -208,6 +244,7 @@ def run(tier):
     chk.assumptions += [
         "RGE theorem is over an arbitrary commutative Q-algebra (the convolution algebra); that 'P_qq_0^2', 'P_qg_0P_gq_0', ... are the products of their factors is a hypothesis (structure Products), checked on Mellin moments of the real kernels each run; their x-space local terms are C03's obligation",
         "how the seven sector operators recombine into quark-singlet/gluon components (actS) rests on the matrix-unit relations of eko's projectors: decided by the kernel on the exact matrices regenerated from the installed eko each run (projector_relations, nf = 3..6); the step from those relations to the sector-wise algebra is E_mul / fact_rge_flavour_space / fact_rge_eko (list-of-rows matrices bridged to Mathlib matrices in Lemmas/MatBridge.lean); that DGLAP evolution in flavour space is sum_s pi_s (x) P_s is eko's convention; additionally exercised by the compute_local correspondence with eko's real projectors",
+        "known finding F28: polarised observables (g1, gL, g4) take the unpolarised splitting functions in their ln(muF) terms (the library has no polarised x-space kernels); reported as KNOWN-FINDING, the unpolarised control (F2) must pass",
         "muF terms exist up to a_s^2 only (the (3,.) factorisation entries are a TODO in the source, as the property states)",
     ]
     return chk
